@@ -2,6 +2,7 @@
 import itertools
 
 from harness import sessions
+from harness.common import bud
 from harness.sessions import SB
 
 PROP = "C07"
@@ -218,7 +219,7 @@ def run(ctx, out, budget):
         out.exhaustive_scope = ("all multisets of <=3 spans over offsets 0..3 (incl. zero-width, duplicates) x 3 type "
                                 "assignments x all 10 query spans x {covered, covering}; exhaustive for that sub-space only")
     rng = ctx.rng(1)
-    evaluate(ctx, out, dynamic_sessions(ctx.rng(2), 150 if budget == "quick" else 12000), "dyn")
+    evaluate(ctx, out, dynamic_sessions(ctx.rng(2), bud(budget, 150, 12000)), "dyn")
     if budget == "quick":
         evaluate(ctx, out, random_sessions(rng, 120, 40, 30), "rnd")
     else:
